@@ -215,13 +215,12 @@ def uciStringToMove (s : List Char) : Option Mv :=
       | some pc =>
         if t.y == 7 || t.y == 0 then
           let white := t.y == 7
-          match pc with
-          | ' ' => some { f := f, t := t, promo := 0 }
-          | 'q' => some { f := f, t := t, promo := if white then WQUEEN else BQUEEN }
-          | 'r' => some { f := f, t := t, promo := if white then WROOK else BROOK }
-          | 'b' => some { f := f, t := t, promo := if white then WBISHOP else BBISHOP }
-          | 'n' => some { f := f, t := t, promo := if white then WKNIGHT else BKNIGHT }
-          | _ => none
+          if pc == ' ' then some { f := f, t := t, promo := 0 }
+          else if pc == 'q' then some { f := f, t := t, promo := if white then WQUEEN else BQUEEN }
+          else if pc == 'r' then some { f := f, t := t, promo := if white then WROOK else BROOK }
+          else if pc == 'b' then some { f := f, t := t, promo := if white then WBISHOP else BBISHOP }
+          else if pc == 'n' then some { f := f, t := t, promo := if white then WKNIGHT else BKNIGHT }
+          else none
         else none
     | _, _ => none
   (match s with
